@@ -66,6 +66,7 @@ const A_ELS: &[(&str, &str)] = &[
     ("ellipse", r#"<ellipse id="a" cxy="50 45" rxy="10 5"/>"#),
     ("line", r#"<line id="a" xy1="60 40" xy2="40 50"/>"#),
     ("group", r#"<g id="a"><rect xy="40 40" wh="5 10"/><rect xy="55 45" wh="5"/></g>"#),
+    ("use", r##"<defs><rect id="usetpl" wh="20 10"/></defs><use id="a" href="#usetpl" x="40" y="40"/>"##),
 ];
 
 fn candidates(b: &BBox, kind: Kind) -> Vec<(f64, f64)> {
